@@ -1,5 +1,7 @@
 use crate::driver::*;
 
+pub mod c03;
+pub mod c04;
 pub mod c06;
 pub mod c07;
 
@@ -16,6 +18,8 @@ pub fn dispatch(ctx: &Ctx, replay_file: Option<&str>) -> i32 {
         }};
     }
     match ctx.id.as_str() {
+        "C03" => prop!(c03),
+        "C04" => prop!(c04),
         "C06" => prop!(c06),
         "C07" => prop!(c07),
         other => {
